@@ -1,0 +1,7 @@
+//go:build !verif
+
+package radius
+
+// verifCrashPoint marks the persistence/transmit steps of accounting.go for crash-injection
+// testing. Without the "verif" build tag it does nothing.
+func verifCrashPoint(string) {}
